@@ -42,7 +42,7 @@ REQUIRED_COUNTERS = [
     "c16.spmatrix.duplicates", "c16.spmatrix.explicit-zeros", "c16.spmatrix.empty-pattern", "c16.spmatrix.size-argument",
     "c16.index.list-neg", "c16.index.imat-neg", "c16.index.slice", "c16.index.int", "c16.index.negint",
     "c16.operands.sparse-sparse", "c16.operands.sparse-dense", "c16.operands.dense-sparse", "c16.operands.sparse-number",
-    "c16.operands.sparse-1x1", "c16.index-beyond-int64", "c16.spdiag.sparse-row-vector", "c16.partial.True", "c16.base.gemm.all-sparse-complex-partial-one-conjugate", "c16.tc.d", "c16.tc.z", "c16.ccs-checks",
+    "c16.operands.sparse-1x1", "c16.setitem1.real-sparse-into-complex-sparse", "c16.index-beyond-int64", "c16.spdiag.sparse-row-vector", "c16.partial.True", "c16.base.gemm.all-sparse-complex-partial-one-conjugate", "c16.tc.d", "c16.tc.z", "c16.ccs-checks",
     "c16.shape.zero-dim", "c16.pattern-unchanged-checks",
 ]
 WATCHDOG = {"quick": 600, "thorough": 3000}
@@ -531,6 +531,23 @@ def run(ctx):
                 src = "(%d, %d, 1)" % (r.m, r.n)
             do("%s.size = %s" % (p, src), "size:" + kind)
 
+        def g_setitem1_sparse_mixed_tc():
+            """A[I] = v, one-argument (linear) index, A complex sparse with stored entries, v a real sparse vector whose
+            stored entries hit positions that are already stored in A, newly stored ones and structural zeros"""
+            t = target()
+            m, n = rng.randint(1, 3), rng.randint(2, 3)
+            N = m * n
+            cells = [(i, j) for j in range(n) for i in range(m) if rng.random() < 0.6] or [(0, 0)]
+            zv = [complex(rng.randint(1, 5), rng.randint(1, 5)) for _ in cells]
+            if do("%s = spmatrix(%s, %s, %s, (%d,%d))" % (t, vals_src(zv), [i for i, _ in cells], [j for _, j in cells], m, n),
+                  "spmatrix:for-mixed-typecode-assignment") != "ok":
+                return
+            pos = [k for k in range(N) if rng.random() < 0.7] or [0]
+            dv = [float(rng.randint(1, 9) * 10) for _ in pos]
+            idx = rng.choice([":", str(list(range(N))), str(list(range(-N, 0)))])
+            ctx.count("c16.setitem1.real-sparse-into-complex-sparse")
+            do("%s[%s] = spmatrix(%s, %s, %s, (%d,1))" % (t, idx, vals_src(dv), pos, [0] * len(pos), N), "setitem1:rhs-sparse:real-into-complex")
+
         def g_hugeindex():
             """integer indices beyond the C long range on a sparse matrix: refused, and the matrix is left alone"""
             p = pick(True)
@@ -741,7 +758,7 @@ def run(ctx):
             ctx.count("c16.base.symv.%s.%s" % (ka, uplo))
             do("symv(%s, %s, %s%s)" % (A, x, y, args), "base.symv:%s" % ("sparse-A" if ka == "s" else "dense-A"))
 
-        GENS = [(g_hugeindex, 1.0), (g_spmatrix, 10), (g_sparse, 5), (g_spdiag, 3), (g_dense, 2), (g_alias, 3),
+        GENS = [(g_hugeindex, 1.0), (g_setitem1_sparse_mixed_tc, 1.5), (g_spmatrix, 10), (g_sparse, 5), (g_spdiag, 3), (g_dense, 2), (g_alias, 3),
                 (lambda: g_getitem(False), 7), (lambda: g_getitem(True), 8), (lambda: g_setitem(False), 8),
                 (lambda: g_setitem(True), 10), (g_binop, 14), (g_inplace, 9), (g_unary, 6), (g_vassign, 4), (g_attr, 2),
                 (g_size, 3), (g_query, 5), (g_elementwise, 5), (g_axpy, 3), (g_gemm, 4), (g_syrk, 3), (g_gemv, 4), (g_symv, 2)]
